@@ -29,7 +29,7 @@ rm -f $pkg/zz_seed_demo_test.go
 full=skipped
 if [ -z "$skipfull" ]; then
   echo "== full suite with patch" >>$log
-  go test -vet=off -count=1 -timeout 25m ./... 2>&1 | grep -v "no test files" > $seed/fullsuite_confirm.log
+  go test -vet=off -count=1 -p 6 -timeout 25m ./... 2>&1 | grep -v "no test files" > $seed/fullsuite_confirm.log
   if grep -q "^FAIL\|^--- FAIL\|^panic" $seed/fullsuite_confirm.log; then full=FAILS; else full=passes; fi
 fi
 echo "$name: demo_with_patch_exit=$with demo_without_patch_exit=$without full_suite=$full" | tee -a $log
